@@ -42,6 +42,9 @@ def gen(seed, index):
         if rng.random() < 0.05:
             # finding F13: a curve shape that is not 0 but tiny
             rng.choice(tempo[1:])[2] = g.hexf(rng.choice([1e-8, 1e-9, -1e-9, 1e-7]))
+        elif rng.random() < 0.06:
+            # very steep curves (the closed form is exact up to |shape| of about 700)
+            rng.choice(tempo[1:])[2] = g.hexf(rng.choice([600, -600, 520, -650, 300, -300, 40]))
     if rng.random() < 0.12:
         from props import C02 as _c2
         _c2.share_leaves(rng, first)          # one leaf object at several positions (the conversion works on a destructive copy)
